@@ -133,11 +133,42 @@ def proof_status(pid, deps):
             n += len(re.findall(r'^\s*(?:Lemma|Theorem|Corollary|Fact|Remark|Example)\s+\w+', s, re.M))
     res['lemmas'] = n
     res['ok'] = ok and bool(printed)
+    if res['ok'] and os.environ.get('VERIF_TIER_EFFECTIVE') == 'thorough':
+        ck = coqchk(pid)
+        COQCHK.clear()
+        COQCHK.update(ck)
+        if not ck['ok']:
+            res['ok'] = False
+            res['error'] = 'coqchk: %s' % ck['detail'][-600:]
+            res['broken'] = 'coqchk PV.Props.%s' % pid
     return res
+
+
+COQCHK = {}
+
+
+def coqchk(pid):
+    """thorough tier: re-check the compiled property file and everything it depends on with the independent checker;
+    its context summary must list no axiom, no type-in-type, no unsafe fixpoint, no assumed positivity"""
+    t0 = time.time()
+    try:
+        p = subprocess.run(['timeout', '1500', 'coqchk', '-silent', '-o', '-Q', '.', 'PV', 'PV.Props.%s' % pid], cwd=COQ,
+                           capture_output=True, text=True)
+    except Exception as exc:      # noqa
+        return {'ok': False, 'detail': str(exc), 'wall_s': round(time.time() - t0, 1)}
+    out = p.stdout + p.stderr
+    summary = out[out.find('CONTEXT SUMMARY'):] if 'CONTEXT SUMMARY' in out else out[-800:]
+    fields = re.findall(r'\* ([^:\n]+):\s*(<none>|[^*]*)', summary)
+    clean = p.returncode == 0 and bool(fields) and all(v.strip() == '<none>' for k, v in fields if not k.startswith('Theory'))
+    return {'ok': clean, 'detail': ' | '.join('%s: %s' % (k.strip(), ' '.join(v.split())[:200]) for k, v in fields) or out[-600:],
+            'wall_s': round(time.time() - t0, 1),
+            'cmd': 'cd /verif/coq && coqchk -silent -o -Q . PV PV.Props.%s' % pid}
 
 
 def write_evidence(pid, tier, level, coverage, wall_s, violations, assumptions=None):
     os.makedirs(EVID, exist_ok=True)
+    if COQCHK:
+        coverage = dict(coverage, coqchk=dict(COQCHK))
     ev = {'property_id': pid, 'tier': tier, 'seed': seed(), 'level': level, 'coverage': coverage,
           'assumptions': assumptions or [], 'wall_s': round(wall_s, 2), 'violations': violations}
     with open(os.path.join(EVID, '%s.json' % pid), 'w') as f:
